@@ -4,6 +4,7 @@ import (
 	"fmt"
 	"go/ast"
 	"go/constant"
+	"go/token"
 	"go/types"
 	"strconv"
 	"strings"
@@ -48,6 +49,9 @@ func (c *fctx) call(t *ast.CallExpr) string {
 			bad("arpVerify closure outside a call position at %s", c.site(t.Pos()))
 		}
 		s, res := c.effectCall(op, f, t)
+		if len(c.ptrBacks) > 0 {
+			bad("environment operation %s with a pointer argument in expression position at %s", op, c.site(t.Pos()))
+		}
 		if res.Len() != 1 {
 			bad("environment operation %s with %d results in expression position at %s", op, res.Len(), c.site(t.Pos()))
 		}
@@ -92,6 +96,8 @@ func (c *fctx) call(t *ast.CallExpr) string {
 		return c.sprintf(t)
 	case "(time.Duration).Seconds":
 		bad("time.Duration.Seconds outside uint32(d.Seconds()) at %s", c.site(t.Pos()))
+	case "(net.IP).DefaultMask":
+		return "(Go.ipDefaultMask " + recv() + ")"
 	case "math/rand.Perm":
 		return c.oracle("(List Int)") // trusted: a permutation of 0..n-1 (a hypothesis of the theorems that need it)
 	case "(time.Time).Add":
@@ -135,6 +141,9 @@ func (c *fctx) userArgs(ci *FuncInfo, t *ast.CallExpr) []string {
 	}
 	np := sig.Params().Len()
 	for i := 0; i < np; i++ {
+		if dropped(sig.Params().At(i).Type()) {
+			continue
+		}
 		if sig.Variadic() && i == np-1 {
 			if t.Ellipsis.IsValid() {
 				args = append(args, c.expr(t.Args[i]))
@@ -181,6 +190,18 @@ func (c *fctx) convert(arg ast.Expr, to types.Type, whole *ast.CallExpr) string 
 		if f := calleeFunc(c.info, call); f != nil && f.FullName() == "(time.Duration).Seconds" {
 			// uint32(d.Seconds()): float64 seconds truncated; the Prelude's integer reading is trusted (DESIGN §13.3)
 			return "(Go.durSecondsU32 " + c.expr(call.Fun.(*ast.SelectorExpr).X) + ")"
+		}
+	}
+	if be, ok := arg.(*ast.BinaryExpr); ok && be.Op == token.MUL && c.x.kindOf(to) == kInt {
+		// time.Duration(float64(d) * k) with a constant k: exact product rounded to 53 bits (Prelude, trusted)
+		if conv, ok := be.X.(*ast.CallExpr); ok && len(conv.Args) == 1 {
+			if tvc, ok := c.info.Types[conv.Fun]; ok && tvc.IsType() && tvc.Type.String() == "float64" {
+				if kv := c.info.Types[be.Y]; kv.Value != nil {
+					r := constant.ToFloat(kv.Value)
+					num, den := constant.Num(r), constant.Denom(r)
+					return fmt.Sprintf("(Go.durTimesFloat %s %s %s)", c.expr(conv.Args[0]), num.ExactString(), den.ExactString())
+				}
+			}
 		}
 	}
 	from := c.typeOf(arg)
